@@ -157,36 +157,61 @@ class StreamingHandler(AsyncCallbackHandler, AsyncIterator):
             if chunk is not None:
                 self.completion += chunk
 
-                # Check if the completion contains one of the stop chunks
-                for stop_chunk in self.stop:
-                    if stop_chunk in self.completion:
-                        # Make sure the stop chunk is not included
-                        self.completion = self.completion.split(stop_chunk)[0]
+                # Check if the completion contains one of the stop chunks.
+                # If there are more, the one that occurs first is the one that counts.
+                stop_positions = [
+                    self.completion.find(stop_chunk)
+                    for stop_chunk in self.stop
+                    if stop_chunk in self.completion
+                ]
+                if stop_positions:
+                    # Make sure the stop chunk is not included, and neither is the suffix
+                    # when the text ends with it.
+                    self.completion = self.completion[: min(stop_positions)]
+                    if self.suffix and self.completion.endswith(self.suffix):
+                        self.completion = self.completion[: -1 * len(self.suffix)]
 
-                        # If the current chunk does add something new to the final completion
-                        # We push that as well.
-                        if len(self.completion) > len(prev_completion):
-                            self.current_chunk = self.completion[len(prev_completion) :]
-                            await self.push_chunk(None)
+                    # If the current chunk does add something new to the final completion
+                    # We push that as well.
+                    if len(self.completion) > len(prev_completion):
+                        await self._forward(self.completion[len(prev_completion) :])
+                    self.current_chunk = ""
 
-                        # And we stop the streaming
-                        self.streaming_finished_event.set()
-                        self.top_k_nonempty_lines_event.set()
-                        return
-
-            if self.pipe_to:
-                asyncio.create_task(self.pipe_to.push_chunk(chunk))
-                if chunk is None or chunk == "":
+                    # And we stop the streaming
                     self.streaming_finished_event.set()
                     self.top_k_nonempty_lines_event.set()
-            else:
-                if self.enable_print and chunk is not None:
-                    print(f"\033[92m{chunk}\033[0m", end="", flush=True)
-                await self.queue.put(chunk)
+                    return
 
-                if chunk is None or chunk == "":
-                    self.streaming_finished_event.set()
-                    self.top_k_nonempty_lines_event.set()
+            await self._forward(chunk)
+
+            if chunk is None or chunk == "":
+                self.streaming_finished_event.set()
+                self.top_k_nonempty_lines_event.set()
+
+    async def _forward(self, chunk: Optional[str]):
+        """Forward a processed chunk to the piped handler, or add it to the queue."""
+        if self.pipe_to:
+            asyncio.create_task(self.pipe_to.push_chunk(chunk))
+        else:
+            if self.enable_print and chunk is not None:
+                print(f"\033[92m{chunk}\033[0m", end="", flush=True)
+            await self.queue.put(chunk)
+
+    def _remove_suffix_at_end(self):
+        """Remove the suffix from the current chunk when the generation ends.
+
+        If the text contains a stop chunk, it ends there: `_process` cuts it and
+        removes the suffix that precedes the stop chunk.
+        """
+        if (
+            self.suffix
+            and self.current_chunk.endswith(self.suffix)
+            and not any(
+                stop_chunk in self.completion + self.current_chunk
+                for stop_chunk in self.stop
+            )
+        ):
+            self.current_chunk = self.current_chunk[: -1 * len(self.suffix)]
 
     async def push_chunk(
         self, chunk: Union[str, GenerationChunk, AIMessageChunk, None]
@@ -212,15 +237,19 @@ class StreamingHandler(AsyncCallbackHandler, AsyncIterator):
             if chunk is not None:
                 self.current_chunk += chunk
 
-            if self.current_chunk.startswith(self.prefix):
-                self.current_chunk = self.current_chunk[len(self.prefix) :]
-                self.prefix = None
+            if not self.current_chunk.startswith(self.prefix):
+                return
 
-                # If we're left with something, we "forward it".
-                if self.current_chunk:
-                    await self._process(self.current_chunk)
-                    self.current_chunk = ""
-        elif self.suffix or self.stop:
+            chunk = self.current_chunk[len(self.prefix) :]
+            self.current_chunk = ""
+            self.prefix = None
+
+            # If we're left with something, we handle it like any other chunk,
+            # i.e., it can contain (part of) the suffix or of a stop chunk.
+            if not chunk:
+                return
+
+        if self.suffix or self.stop:
             # If we have a suffix, we always check that the total current chunk does not end
             # with the suffix.
 
@@ -251,14 +280,7 @@ class StreamingHandler(AsyncCallbackHandler, AsyncIterator):
                 return
             else:
                 if chunk == "" or chunk is None:
-                    if (
-                        self.current_chunk
-                        and self.suffix
-                        and self.current_chunk.endswith(self.suffix)
-                    ):
-                        self.current_chunk = self.current_chunk[
-                            0 : -1 * len(self.suffix)
-                        ]
+                    self._remove_suffix_at_end()
 
                 await self._process(self.current_chunk)
                 self.current_chunk = ""
@@ -310,8 +332,7 @@ class StreamingHandler(AsyncCallbackHandler, AsyncIterator):
     ) -> None:
         """Run when LLM ends running."""
         if self.current_chunk:
-            if self.suffix and self.current_chunk.endswith(self.suffix):
-                self.current_chunk = self.current_chunk[: -1 * len(self.suffix)]
+            self._remove_suffix_at_end()
 
             await self._process(self.current_chunk)
             self.current_chunk = ""
